@@ -123,6 +123,13 @@ fn single_changes(w: &World) -> Vec<(String, World)> {
             w2.remove(i);
             out.push((format!("n{} removed", m.id), w2));
         }
+        // node replaced within one refresh: a new host id takes over address and tokens (same place / another rack)
+        let new_id = w.iter().map(|m| m.id).max().unwrap_or(0) + 1 + i;
+        out.push((format!("n{} replaced by n{new_id} (same address, tokens, place)", m.id), with(&|x| x.id = new_id)));
+        out.push((format!("n{} replaced by n{new_id} in rack \"rack-new\"", m.id), with(&|x| {
+            x.id = new_id;
+            x.rack = Some("rack-new".to_string());
+        })));
     }
     // a node is added
     let new_id = w.iter().map(|m| m.id).max().unwrap_or(0) + 1;
@@ -147,6 +154,40 @@ fn single_changes(w: &World) -> Vec<(String, World)> {
     out
 }
 
+/// Two different nodes change in ONE refresh: node a changes rack (or is replaced), node b changes rack / address /
+/// datacenter (quick: rack and address only).
+fn simultaneous_changes(w: &World, all_classes: bool) -> Vec<(String, World)> {
+    let singles = single_changes(w);
+    let pick = |node: usize, classes: &[&str]| -> Vec<(String, Member)> {
+        singles
+            .iter()
+            .filter(|(l, w2)| w2.len() == w.len() && classes.contains(&change_class(l)) && l.starts_with(&format!("n{} ", w[node].id)))
+            .map(|(l, w2)| (l.clone(), w2[node].clone()))
+            .collect()
+    };
+    let mut out = Vec::new();
+    for a in 0..w.len() {
+        for b in 0..w.len() {
+            if a == b {
+                continue;
+            }
+            let second: &[&str] = if all_classes { &["rack", "rack+address", "address", "datacenter", "host-filter", "tokens"] } else { &["rack", "address"] };
+            for (la, ma) in pick(a, &["rack", "replaced"]) {
+                for (lb, mb) in pick(b, second) {
+                    if a > b && change_class(&lb) == "rack" {
+                        continue; // rack x rack: unordered pair
+                    }
+                    let mut w2 = w.clone();
+                    w2[a] = ma.clone();
+                    w2[b] = mb;
+                    out.push((format!("at once: {la}; {lb}"), w2));
+                }
+            }
+        }
+    }
+    out
+}
+
 #[derive(Default)]
 struct Tally {
     sequences: u64,
@@ -155,6 +196,7 @@ struct Tally {
     states_built: u64,
     node_objects_reused: u64,
     node_objects_replaced: u64,
+    simultaneous: u64,
     by_change: BTreeMap<&'static str, u64>,
 }
 
@@ -261,7 +303,11 @@ fn rt_block<F: std::future::Future>(f: F) -> F::Output {
 }
 
 fn change_class(label: &str) -> &'static str {
-    if label.contains("rack") && label.contains("and address") {
+    if label.starts_with("at once:") {
+        "two-nodes-at-once"
+    } else if label.contains("replaced") {
+        "replaced"
+    } else if label.contains("rack") && label.contains("and address") {
         "rack+address"
     } else if label.contains(" rack ") {
         "rack"
@@ -308,12 +354,17 @@ fn run_sequence(env: &Env, tally: &mut Tally, worlds: &[World], labels: &[String
     }
     let case = || json!({"worlds": worlds.iter().map(world_json).collect::<Vec<_>>(), "changes": labels});
     for precomputed in [true, false] {
-        let ks: Vec<KeyspaceSpec> = if precomputed { strats.iter().enumerate().map(|(i, s)| topo::keyspace(&format!("ks{i}"), s, false)).collect() } else { vec![] };
+        let all_ks = || -> Vec<KeyspaceSpec> { strats.iter().enumerate().map(|(i, s)| topo::keyspace(&format!("ks{i}"), s, false)).collect() };
+        let ks: Vec<KeyspaceSpec> = if precomputed { all_ks() } else { vec![] };
+        let other_ks: Vec<KeyspaceSpec> = if precomputed { vec![] } else { all_ks() };
         // the two production refresh paths, chained over the whole sequence
         for path in ["new_updated", "new_with_updated_topology"] {
             let built = catch(AssertUnwindSafe(|| {
                 rt_block(async {
-                    let mut st = hook::cluster_state_filtered(&peers(&worlds[0]), &ks, &accepted(&worlds[0])).await;
+                    // on the full-refresh path the FIRST state knows the opposite keyspace set (schema changes with the
+                    // refresh: nothing precomputed before may survive); the topology-only path reuses the old schema
+                    let first_ks: &[KeyspaceSpec] = if path == "new_updated" { &other_ks } else { &ks };
+                    let mut st = hook::cluster_state_filtered(&peers(&worlds[0]), first_ks, &accepted(&worlds[0])).await;
                     let mut reused = (0u64, 0u64);
                     for w in &worlds[1..] {
                         let next = if path == "new_updated" { hook::refresh_full(&st, &peers(w), &ks, &accepted(w)).await } else { hook::refresh_topology(&st, &peers(w), &accepted(w)).await };
@@ -338,6 +389,8 @@ fn run_sequence(env: &Env, tally: &mut Tally, worlds: &[World], labels: &[String
             tally.states_built += worlds.len() as u64;
             tally.node_objects_reused += reused.0;
             tally.node_objects_replaced += reused.1;
+            // what is handed out is a clone (ClusterState::clone is what the worker publishes / updates tablets on)
+            let st = if path == "new_updated" { st } else { st.clone() };
             let bad = judge_state(&st, last, &ring, &ids, &strats, precomputed, &tokens, only);
             if verbose {
                 println!("replay: [{path}, strategies {}] {} complaint(s)", if precomputed { "precomputed" } else { "on the fly" }, bad.len());
@@ -441,13 +494,21 @@ fn main() {
         for (ci, (label, w2)) in single_changes(base).into_iter().enumerate() {
             let rank = ((bi as u64) << 32) | ((ci as u64) << 16);
             run_sequence(env_ref, &mut tally, &[base.clone(), w2.clone()], &[label.clone()], rank, None, false);
+            let _ = ci;
             if base.len() <= two_step_upto_nodes && base.iter().map(|m| m.tokens.len()).sum::<usize>() <= 2 {
                 for (di, (label2, w3)) in single_changes(&w2).into_iter().enumerate() {
                     run_sequence(env_ref, &mut tally, &[base.clone(), w2.clone(), w3], &[label.clone(), label2], rank | (1 << 15) | di as u64, None, false);
                 }
             }
         }
+        // (quick: only from bases whose nodes are enabled - the branch with three outcomes)
+        let sim = if thorough || base.iter().all(|m| m.enabled) { simultaneous_changes(base, thorough) } else { vec![] };
+        for (si, (label, w2)) in sim.into_iter().enumerate() {
+            run_sequence(env_ref, &mut tally, &[base.clone(), w2], &[label], ((bi as u64) << 32) | (1 << 31) | si as u64, None, false);
+            tally.simultaneous += 1;
+        }
         let mut g = totals.lock().unwrap();
+        g.simultaneous += tally.simultaneous;
         g.sequences += tally.sequences;
         g.triples += tally.triples;
         g.nontrivial += tally.nontrivial;
@@ -464,16 +525,17 @@ fn main() {
     r.nontrivial(t.nontrivial);
     r.counters.add("base_topologies_x_host_filter", bases.len() as u64);
     r.counters.add("refresh_sequences", t.sequences);
+    r.counters.add("sequences_with_two_nodes_changing_in_one_refresh", t.simultaneous);
     r.counters.add("cluster_states_built_or_refreshed", t.states_built);
     r.counters.add("node_objects_reused_by_a_refresh", t.node_objects_reused);
     r.counters.add("node_objects_replaced_or_new_after_a_refresh", t.node_objects_replaced);
     for (k, v) in &t.by_change {
         r.counters.add(&format!("sequences_ending_in_change_{k}"), *v);
     }
-    r.set_rule("E-ENUM, differential. evaluations = (refresh sequence, strategy, query token) triples. Bases: every canonical topology of <= 3 token slots / <= 3 nodes (thorough: <= 4 slots) x host filter {accepts all, rejects all}; sequence = base followed by every single-node change (rack to none / another existing / a new rack, the same together with an address change, datacenter to none / another / a new one, address, host-filter verdict, token gained / moved / lost, node removed, node added in every datacenter x rack incl. new ones) - thorough: also every two-step sequence over bases of <= 2 nodes. Each sequence is driven through ClusterState::new + new_updated and + new_with_updated_topology, with the strategies precomputed and not; the refreshed state and a state built fresh from the last metadata are both compared with cqlref::placement of the last topology (len, iteration, ring-ordered view, unrestricted and per datacenter, get_token_endpoints) and with the metadata's node attributes (get_nodes_info and the ring's node objects). distinct_nontrivial = triples whose placement differs between the first and the last topology of the sequence.");
+    r.set_rule("E-ENUM, differential. evaluations = (refresh sequence, strategy, query token) triples. Bases: every canonical topology of <= 3 token slots / <= 3 nodes (thorough: <= 4 slots) x host filter {accepts all, rejects all}; sequence = base followed by every single-node change (rack to none / another existing / a new rack, the same together with an address change, datacenter to none / another / a new one, address, host-filter verdict, token gained / moved / lost, node removed, node replaced by a new host id at the same address (same place / new rack), node added in every datacenter x rack incl. new ones), and two different nodes changing in ONE refresh (rack or replacement of one x rack / address of the other; thorough: x every class) - thorough: also every two-step sequence over bases of <= 2 nodes. Each sequence is driven through ClusterState::new + new_updated and + new_with_updated_topology, with the strategies precomputed and not; the refreshed state and a state built fresh from the last metadata are both compared with cqlref::placement of the last topology (len, iteration, ring-ordered view, unrestricted and per datacenter, get_token_endpoints) and with the metadata's node attributes (get_nodes_info and the ring's node objects). distinct_nontrivial = triples whose placement differs between the first and the last topology of the sequence.");
     r.set_exhaustive(true);
     r.assume("host-filter-accepted nodes are enabled but pool-less (hook): the reuse decisions of calculate_new_topology run as in production, pool hand-over (update_endpoint) is not exercised");
-    r.assume("keyspace set is the same before and after the refresh (schema changes are not part of this leg)");
+    r.assume("on the new_updated path the state before the refresh knows the opposite keyspace set (none <-> all strategies), on the topology-only path the schema is reused by construction; the state judged on the topology-only path is a ClusterState::clone");
     if let Some(b) = bases.last() {
         let ch = single_changes(b);
         r.sample(json!({"base": world_json(b), "changes": ch.iter().map(|c| c.0.clone()).collect::<Vec<_>>()}));
